@@ -289,6 +289,12 @@ def gen(seed, idx, tier):
             if r.random() < 0.4:
                 wd["node"] = r.choice(["10.0.0.1", "10.0.0.2"])
             net["windows"].append(wd)
+    # some of the loss is a failing sendto() at the sender (error_received() is called, nobody receives the datagram)
+    # instead of a loss on the way; own random stream, so that everything else in the plan stays what it was
+    r2 = rng(seed, ID, idx, "senderr")
+    for wd in net["windows"]:
+        if wd["kind"] == "drop" and r2.random() < 0.4:
+            wd["kind"] = "senderr"
     plan["ops"] = ops
     plan["aligned"] = bool(il)
     D = last_disturbance(plan)
